@@ -8,7 +8,8 @@ use std::collections::BTreeMap;
 use std::alloc::Allocator;
 use std::borrow::Borrow;
 use core::cmp::Ordering;
-use std::ops::Index;
+use std::ops::{Index, IndexMut};
+use std::collections::btree_set::Iter as BTreeSetIter;
 use std::fmt;
 use vstd::std_specs::iter::IteratorSpec;
 use vstd::std_specs::btree::*;
@@ -60,6 +61,24 @@ impl<T> vstd::std_specs::core::IndexSpecImpl<ProdIndex> for ProdVec<T> {
 //@macro TRM IDX create_index invoked_in=IDX index=TermIndex collection=TermVec
 //@struct TRM TermIndex derive=Copy,Clone,PartialEq,Eq,PartialOrd,Ord
 //@end
+//@struct TRM TermVec
+//@end
+impl<T> vstd::std_specs::core::IndexSpecImpl<TermIndex> for TermVec<T> {
+    open spec fn index_req(&self, index: &TermIndex) -> bool { index.0 < self.0@.len() }
+}
+//@impl TRM /^impl < T > Index < TermIndex > for TermVec < T >/
+//@  type Output
+//@  fn index ret=r
+//@  |             ensures *r == self.0@[index.0 as int],
+//@end
+//@allow external_body TermVec::index_mut is the one-line wrapper `self.0.index_mut(index.0)`; Vec's IndexMut::index_mut called as a method has no vstd contract, so the wrapper is given the contract of `&mut self.0[index.0]`
+//@impl TRM /^impl < T > IndexMut < TermIndex > for TermVec < T >/
+//@  fn index_mut ret=r xbody
+//@  |             ensures *r == old(self).0@[index.0 as int], final(self).0@ == old(self).0@.update(index.0 as int, *final(r)),
+//@end
+//@macro SYM IDX create_index invoked_in=IDX index=SymbolIndex collection=SymbolVec
+//@struct SYM SymbolIndex derive=Copy,Clone
+//@end
 
 // ---- the real types the range reads, projected to the fields it mentions (R-PROJ) --------------------------------------
 //@enum GRM Associativity
@@ -72,13 +91,13 @@ impl<T> vstd::std_specs::core::IndexSpecImpl<ProdIndex> for ProdVec<T> {
 //@end
 //@struct GRM Terminal fields=idx,assoc
 //@end
-//@struct GRM Grammar fields=productions
+//@struct GRM Grammar fields=productions,terminals
 //@end
 //@enum SET ParserAlgo
 //@end
 //@struct SET Settings fields=prefer_shifts,prefer_shifts_over_empty,parser_algo
 //@end
-//@struct TBL LRState fields=grammar,max_prior_for_term
+//@struct TBL LRState fields=grammar,max_prior_for_term,actions
 //@end
 //@struct TBL LRItem fields=prod_len
 //@end
@@ -210,16 +229,16 @@ spec fn rr_rule(g: &Grammar, c: Seq<Action>, new: Action, pp: int, new_len: int,
 }
 
 /// "shift priority = max priority of productions shifting the terminal in this state"; ACCEPT counts as a shift of default priority
-spec fn shift_prio_of(st: &LRState, t: &Terminal, shift: Action) -> int {
-    if shift is Accept { DEFAULT_PRIORITY as int } else { st.max_prior_for_term@[t.idx] as int }
+spec fn shift_prio_of(mp: Map<TermIndex, Priority>, t: &Terminal, shift: Action) -> int {
+    if shift is Accept { DEFAULT_PRIORITY as int } else { mp[t.idx] as int }
 }
 
-spec fn resolve(g: &Grammar, s: &Settings, st: &LRState, item: &LRItem, prod: &Production, t: &Terminal, c: Seq<Action>, new: Action) -> Seq<Action> {
+spec fn resolve(g: &Grammar, s: &Settings, mp: Map<TermIndex, Priority>, item: &LRItem, prod: &Production, t: &Terminal, c: Seq<Action>, new: Action) -> Seq<Action> {
     let shifts = c.filter(p_sa());
     let lr = s.parser_algo is LR;
     if shifts.len() == 0 { rr_rule(g, c, new, prod.prio as int, item.prod_len as int, lr) }
     else {
-        match sr_rule(prod.prio as int, shift_prio_of(st, t, shifts[0]), prod.assoc, t.assoc, prod.rhs@.len() == 0, s.prefer_shifts, s.prefer_shifts_over_empty, prod.nops, prod.nopse) {
+        match sr_rule(prod.prio as int, shift_prio_of(mp, t, shifts[0]), prod.assoc, t.assoc, prod.rhs@.len() == 0, s.prefer_shifts, s.prefer_shifts_over_empty, prod.nops, prod.nopse) {
             SR::DropNew => c,
             SR::KeepBoth => rr_rule(g, c, new, prod.prio as int, item.prod_len as int, lr),
             SR::RemoveShift => rr_rule(g, c.filter(p_not_sa()), new, prod.prio as int, item.prod_len as int, lr),
@@ -229,18 +248,18 @@ spec fn resolve(g: &Grammar, s: &Settings, st: &LRState, item: &LRItem, prod: &P
 
 /// what the range may assume about the cell and the tables it reads (established by calc_states/group_per_next_symbol
 /// and by earlier iterations of calculate_reductions; the first clause is preserved by the range -- second postcondition)
-spec fn cell_pre(g: &Grammar, st: &LRState, t: &Terminal, c: Seq<Action>) -> bool {
+spec fn cell_pre(g: &Grammar, mp: Map<TermIndex, Priority>, t: &Terminal, c: Seq<Action>) -> bool {
     &&& cell_wf(c)
-    &&& forall|i: int| 0 <= i < c.len() && (#[trigger] c[i]) is Shift ==> st.max_prior_for_term@.contains_key(t.idx)
+    &&& forall|i: int| 0 <= i < c.len() && (#[trigger] c[i]) is Shift ==> mp.contains_key(t.idx)
     &&& forall|i: int| 0 <= i < c.len() && (#[trigger] c[i]) is Reduce ==> red_prod(c[i]) < g.productions.0@.len()
 }
 
 /// C02 "conflict resolution only removes candidate actions": nothing appears in a resolved cell from nowhere
-proof fn lemma_resolve_only_removes(g: &Grammar, s: &Settings, st: &LRState, item: &LRItem, prod: &Production, t: &Terminal, c: Seq<Action>, new: Action)
-    ensures forall|i: int| #![auto] 0 <= i < resolve(g, s, st, item, prod, t, c, new).len()
-        ==> c.contains(resolve(g, s, st, item, prod, t, c, new)[i]) || resolve(g, s, st, item, prod, t, c, new)[i] == new,
+proof fn lemma_resolve_only_removes(g: &Grammar, s: &Settings, mp: Map<TermIndex, Priority>, item: &LRItem, prod: &Production, t: &Terminal, c: Seq<Action>, new: Action)
+    ensures forall|i: int| #![auto] 0 <= i < resolve(g, s, mp, item, prod, t, c, new).len()
+        ==> c.contains(resolve(g, s, mp, item, prod, t, c, new)[i]) || resolve(g, s, mp, item, prod, t, c, new)[i] == new,
 {
-    let r = resolve(g, s, st, item, prod, t, c, new);
+    let r = resolve(g, s, mp, item, prod, t, c, new);
     lemma_filter_mem(c, p_not_sa());
     lemma_filter_mem(c, p_not_red());
     lemma_filter_mem(c, p_not_empty_red());
@@ -262,9 +281,9 @@ proof fn lemma_resolve_only_removes(g: &Grammar, s: &Settings, st: &LRState, ite
 }
 
 /// C16: the cell invariant that keeps `assert!(shifts.len() <= 1)` from firing is preserved (the new action is a REDUCE)
-proof fn lemma_resolve_keeps_cell_wf(g: &Grammar, s: &Settings, st: &LRState, item: &LRItem, prod: &Production, t: &Terminal, c: Seq<Action>, new: Action)
+proof fn lemma_resolve_keeps_cell_wf(g: &Grammar, s: &Settings, mp: Map<TermIndex, Priority>, item: &LRItem, prod: &Production, t: &Terminal, c: Seq<Action>, new: Action)
     requires cell_wf(c), new is Reduce,
-    ensures cell_wf(resolve(g, s, st, item, prod, t, c, new)),
+    ensures cell_wf(resolve(g, s, mp, item, prod, t, c, new)),
 {
     let d = c.filter(p_not_sa());
     let sa = p_sa();
@@ -285,56 +304,118 @@ proof fn lemma_resolve_keeps_cell_wf(g: &Grammar, s: &Settings, st: &LRState, it
 //@impl CB /^impl < 'g , 's > LRTable < 'g , 's >/
 //@  fn conflict_block allclosures
 //@  |         requires
-//@  |             cell_pre(self.grammar, state, follow_term, old(actions)@),
+//@  |             cell_pre(self.grammar, state.max_prior_for_term@, follow_term, old(actions)@),
 //@  |         ensures
-//@  |             final(actions)@ == resolve(self.grammar, self.settings, state, item, prod, follow_term, old(actions)@, new_reduce), // [C05, C02]
-//@  xexpr xexpr_partition(actions) = actions.clone().into_iter().partition(|x| matches!(x, Action::Shift(_) | Action::Accept))
-//@  before 1 "// Conflict. Try to resolve."
-//@  |                         broadcast use axiom_btree_map_index_req;
-//@  |                         let ghost c = actions@;
-//@  |                         let ghost g = self.grammar;
-//@  |                         proof { lemma_filter_mem(c, p_sa()); lemma_filter_mem(c, p_not_sa()); }
-//@  after 1 "if let Some(shift) = shifts.first() {"
-//@  |                             proof {
-//@  |                                 assert(*shift == shifts@[0]);
-//@  |                                 assert(c.contains(shifts@[0]));
-//@  |                             }
-//@  before 1 "match prod.prio.cmp(&shift_prio) {"
-//@  |                             assert(shift_prio as int == shift_prio_of(state, follow_term, shifts@[0]));
-//@  cspec_self retain,all bool
-//@  before 1 "if should_reduce {"
-//@  |                         let ghost c1 = actions@;
-//@  |                         let ghost lr = self.settings.parser_algo is LR;
-//@  |                         let ghost want = rr_rule(g, c1, new_reduce, prod.prio as int, item.prod_len as int, lr);
-//@  |                         proof {
-//@  |                             assert(c1 == c || c1 == c.filter(p_not_sa()));
-//@  |                             assert(reduces@ == c1.filter(p_not_sa())) by {
-//@  |                                 if c1 != c { lemma_filter_implied(c, p_not_sa(), p_not_sa()); }
-//@  |                             }
-//@  |                             let sh = c.filter(p_sa());
-//@  |                             if sh.len() == 0 {
-//@  |                                 assert(c1 == c && should_reduce);
-//@  |                             } else {
-//@  |                                 let sr = sr_rule(prod.prio as int, shift_prio_of(state, follow_term, sh[0]), prod.assoc, follow_term.assoc, prod.rhs@.len() == 0,
-//@  |                                     self.settings.prefer_shifts, self.settings.prefer_shifts_over_empty, prod.nops, prod.nopse);
-//@  |                                 assert(sr is DropNew ==> !should_reduce && c1 == c);
-//@  |                                 assert(sr is KeepBoth ==> should_reduce && c1 == c);
-//@  |                                 assert(sr is RemoveShift ==> should_reduce && c1 == c.filter(p_not_sa()));
-//@  |                             }
-//@  |                             assert(should_reduce ==> resolve(g, self.settings, state, item, prod, follow_term, c, new_reduce) == want);
-//@  |                             assert(!should_reduce ==> resolve(g, self.settings, state, item, prod, follow_term, c, new_reduce) == c1);
-//@  |                         }
-//@  cspec_text |x|match x{Action::Reduce(prod,..)=>{self.grammar.productions[*prod].prio}other=>panic!("This should not happen. Got {other:?}"),}
-//@  |  -> (r: u32) requires *x is Reduce && red_prod(*x) < g.productions.0@.len() ensures r as int == prio_of(g, *x)
-//@  before 1 "if reduces_prio"
-//@  |                                 assert(reduces_prio@.len() == reduces@.len());
-//@  |                                 assert(forall|i: int| 0 <= i < reduces@.len() ==> reduces_prio@[i] as int == prio_of(g, #[trigger] reduces@[i]));
-//@  |                                 // lets z3 reach the elements of the slice iterator of `reduces_prio` from the elements of the cell's reductions
-//@  |                                 assert(forall|j: int| 0 <= j < reduces@.len() ==> prio_of(g, #[trigger] c1.filter(p_not_sa())[j]) == *reduces_prio@.as_ref()[j] as int);
+//@  |             final(actions)@ == resolve(self.grammar, self.settings, state.max_prior_for_term@, item, prod, follow_term, old(actions)@, new_reduce), // [C05, C02]
+//@include conflict_annotations.inc
 //@end
 //@xexprfn xexpr_partition
 //@  | fn xexpr_partition(actions: &Vec<Action>) -> (r: (Vec<Action>, Vec<Action>))
 //@  |     ensures r.0@ == actions@.filter(p_sa()), r.1@ == actions@.filter(p_not_sa()),
+//@end
+
+// ---- C01: REDUCE placement -- every lookahead of a reducing item gets the reduction -----------------------------------------
+// R-LIFT reduce_block: the statement `for follow_symbol in item.follow.borrow().iter() { .. }` of calculate_reductions,
+// verbatim (it contains the conflict_block range as the else-arm; the same ghost annotations are spliced, from
+// inc/conflict_annotations.inc).
+//@impl GRM /^impl Grammar/ has=symbol_to_term
+//@  fn symbol_to_term_index ret=r
+//@  |         ensures r.0 == index.0,
+//@  fn symbol_to_term ret=r
+//@  |         requires index.0 < self.terminals.0@.len(),
+//@  |         ensures *r == self.terminals.0@[index.0 as int],
+//@end
+
+/// the content of an item's follow cell (RefCell<Follow>) -- read, never written, by the range
+uninterp spec fn follow_of(item: &LRItem) -> Set<SymbolIndex>;
+
+/// the cell of terminal t after the reduction of `item` on lookahead t has been registered
+spec fn cell_after(g: &Grammar, s: &Settings, mp: Map<TermIndex, Priority>, item: &LRItem, prod: &Production, t: &Terminal, c: Seq<Action>, new: Action) -> Seq<Action> {
+    if c.len() == 0 { seq![new] } else { resolve(g, s, mp, item, prod, t, c, new) }
+}
+
+/// what the range may assume (established by calc_states / the grammar builder / earlier iterations; not proved here)
+spec fn reduce_pre(g: &Grammar, st: &LRState, item: &LRItem) -> bool {
+    &&& st.actions.0@.len() == g.terminals.0@.len()
+    &&& forall|t: int| 0 <= t < g.terminals.0@.len() ==> (#[trigger] g.terminals.0@[t]).idx.0 == t
+    &&& forall|x: SymbolIndex| follow_of(item).contains(x) ==> x.0 < g.terminals.0@.len() // lookaheads are terminals
+    &&& forall|t: int| 0 <= t < g.terminals.0@.len() ==> cell_pre(g, st.max_prior_for_term@, &g.terminals.0@[t], #[trigger] st.actions.0@[t]@)
+}
+
+//@lift RDB reduce_block
+//@allow external_body xexpr_follow_iter: the expression `item.follow.borrow().iter()` (RefCell::borrow + Deref of std::cell::Ref + BTreeSet::iter; Verus accepts no specification for Ref's Deref impl) is replaced by a call of an external function (body dropped: a function cannot return an iterator borrowing from a temporary Ref); ASSUMED: it yields exactly the follow set of the item, each symbol once
+//@impl RDB /^impl < 'g , 's > LRTable < 'g , 's >/
+//@  fn reduce_block allclosures attr=verifier::loop_isolation(false)
+//@  |         requires
+//@  |             reduce_pre(self.grammar, old(state), item),
+//@  |             new_reduce is Reduce,
+//@  |         ensures
+//@  |             final(state).actions.0@.len() == old(state).actions.0@.len(),
+//@  |             final(state).max_prior_for_term == old(state).max_prior_for_term,
+//@  |             // [C01] REDUCE entries sit exactly on the item's lookaheads: the cell of every terminal in the follow set is the old
+//@  |             // cell with the reduction registered (directly if it was empty, through conflict resolution otherwise); every other
+//@  |             // cell is untouched
+//@  |             forall|t: int| 0 <= t < old(state).actions.0@.len() ==> (#[trigger] final(state).actions.0@[t])@ ==
+//@  |                 (if follow_of(item).contains(SymbolIndex(t as usize)) {
+//@  |                     cell_after(self.grammar, self.settings, old(state).max_prior_for_term@, item, prod, &self.grammar.terminals.0@[t], old(state).actions.0@[t]@, new_reduce)
+//@  |                 } else { old(state).actions.0@[t]@ }), // [C01, C05]
+//@  before 1 "for follow_symbol in"
+//@  |                 let ghost a0 = state.actions.0@;
+//@  |                 let ghost mp0 = state.max_prior_for_term@;
+//@  |                 let ghost gg = self.grammar;
+//@  |                 // the lookaheads handled so far
+//@  |                 let ghost mut done: Set<SymbolIndex> = Set::empty();
+//@  loop 1 iter=fit
+//@  |                     invariant
+//@  |                         fit.seq().unref().to_set() == follow_of(item),
+//@  |                         fit.seq().no_duplicates(),
+//@  |                         state.actions.0@.len() == a0.len(),
+//@  |                         state.max_prior_for_term@ == mp0,
+//@  |                         state.max_prior_for_term == old(state).max_prior_for_term,
+//@  |                         done == fit.seq().take(fit.index()).unref().to_set(),
+//@  |                         fit.index() == fit.seq().len() ==> done == follow_of(item),
+//@  |                         forall|t: int| 0 <= t < a0.len() ==> (#[trigger] state.actions.0@[t])@ ==
+//@  |                             (if done.contains(SymbolIndex(t as usize)) {
+//@  |                                 cell_after(gg, self.settings, mp0, item, prod, &gg.terminals.0@[t], a0[t]@, new_reduce)
+//@  |                             } else { a0[t]@ }), // [C01, C05]
+//@  xexpr xexpr_follow_iter(item) = item.follow.borrow().iter()
+//@  before 1 "let follow_term = self.grammar.symbol_to_term(*follow_symbol);"
+//@  |                     let ghost ti = follow_symbol.0 as int;
+//@  |                     proof {
+//@  |                         assert(*follow_symbol == *fit.seq()[fit.index()]);
+//@  |                         assert(fit.seq().unref().contains(*follow_symbol)) by { assert(fit.seq().unref()[fit.index()] == *follow_symbol); }
+//@  |                         assert(follow_of(item).contains(*follow_symbol));
+//@  |                     }
+//@  after 1 "let follow_term = self.grammar.symbol_to_term(*follow_symbol);"
+//@  |                     proof {
+//@  |                         assert(*follow_term == gg.terminals.0@[ti] && follow_term.idx.0 == ti);
+//@  |                         // this terminal was not handled before (the iterator yields each symbol once)
+//@  |                         assert(!done.contains(*follow_symbol)) by {
+//@  |                             if done.contains(*follow_symbol) {
+//@  |                                 let pre = fit.seq().take(fit.index()).unref();
+//@  |                                 let k = choose|k: int| 0 <= k < pre.len() && pre[k] == *follow_symbol;
+//@  |                                 assert(*fit.seq()[k] == *fit.seq()[fit.index()]);
+//@  |                                 assert(fit.seq()[k] == fit.seq()[fit.index()]);
+//@  |                             }
+//@  |                         }
+//@  |                         assert(state.actions.0@[ti]@ == a0[ti]@);
+//@  |                     }
+//@  loopend 1
+//@  |                     proof {
+//@  |                         assert(fit.seq().take(fit.index() + 1).unref().to_set() == done.insert(*follow_symbol)) by {
+//@  |                             let pre = fit.seq().take(fit.index());
+//@  |                             let nxt = fit.seq().take(fit.index() + 1);
+//@  |                             assert(nxt.unref() =~= pre.unref().push(*follow_symbol));
+//@  |                             pre.unref().lemma_push_to_set_commute(*follow_symbol);
+//@  |                         }
+//@  |                         assert(fit.index() + 1 == fit.seq().len() ==> fit.seq().take(fit.index() + 1) =~= fit.seq());
+//@  |                     }
+//@  |                     proof { done = done.insert(*follow_symbol); }
+//@include conflict_annotations.inc
+//@end
+//@xexprfn xexpr_follow_iter nobody
+//@  | fn xexpr_follow_iter<'a>(item: &'a LRItem) -> (r: BTreeSetIter<'a, SymbolIndex>)
+//@  |     ensures r.remaining().unref().to_set() == follow_of(item), r.remaining().no_duplicates(), r.decrease() is Some,
 //@end
 
 } // verus!
